@@ -203,6 +203,11 @@ def main(tier):
     # prefer interesting instances: several rows, merges
     insts.sort(key=lambda x: -(len(x["rows"]) + (1 if x["flag"][0] == "atleast" else 0)))
     pick = insts[: n // 2] + rng.sample(insts[n // 2:], min(len(insts) - n // 2, n // 2))
+    # strata that a random sample hits rarely: every recorded version is commit-less and a commit flag is given
+    nullish = [x for x in insts if x["rows"] and all(r[1] == 0 for r in x["rows"]) and x["flag"][0] == "atleast"]
+    unknownish = [x for x in insts if x["rows"] and all(r[1] == x["u"]["nc"] + 1 for r in x["rows"]) and x["u"]["mode"] == "git"]
+    pick += rng.sample(nullish, min(len(nullish), 40 if tier == "quick" else 400))
+    pick += rng.sample(unknownish, min(len(unknownish), 20 if tier == "quick" else 200))
     by_u = {}
     sid = 0
     for x in pick:
